@@ -428,6 +428,15 @@ func c14WindowFlags(r *RNG, lo, hi int, val string) *BalFlags {
 }
 
 // c14Journal draws a small mostly-valid journal; returns the journal, its day range.
+// c14Val: a valuation commodity; mostly the usual upper-case code, sometimes a name which is a valid knut commodity but
+// unusual elsewhere (lower or mixed case, leading digit, non-ASCII letters)
+func c14Val(r *RNG) string {
+	if r.Chance(2, 3) {
+		return "CHF"
+	}
+	return Pick(r, []string{"USD", "chf", "Eur", "1INCH", "X1", "Ünit", "a"})
+}
+
 func c14Journal(r *RNG, val string) (*Journal, int, int) {
 	base := 737000 + r.Intn(1500)
 	span := Pick(r, []int{0, 5, 40, 400})
@@ -518,7 +527,7 @@ func c14GenGraph(c *Ctx, i int) *c14Case {
 	val := ""
 	tc.Cmd = Pick(r, c14Cmds)
 	if tc.Cmd == "transcode" || ((tc.Cmd == "balance" || tc.Cmd == "returns" || tc.Cmd == "weights") && r.Chance(1, 2)) {
-		val = "CHF"
+		val = c14Val(r)
 	}
 	j, lo, hi := c14Journal(r, val)
 	kinds := []string{"tree", "tree", "self", "two-cycle", "long-cycle", "diamond", "missing", "dir-as-file", "unreadable", "deep-chain", "siblings",
@@ -747,7 +756,7 @@ func c14GenBytes(c *Ctx, i int) *c14Case {
 	tc.Cmd = Pick(r, c14Cmds)
 	val := ""
 	if tc.Cmd == "transcode" || r.Chance(1, 3) {
-		val = "CHF"
+		val = c14Val(r)
 	}
 	j, lo, hi := c14Journal(r, val)
 	text, _ := j.Text()
